@@ -202,3 +202,30 @@ Theorem C07_src_current_to_pbest_shape : forall cur pop pbest F archive ds d ds'
   py_current_to_pbest_1_archive_p_min cur pop pbest F archive ds = Some (d, ds') -> length d = length cur.
 Proof. exact src_current_to_pbest_shape. Qed.
 Print Assumptions C07_src_current_to_pbest_shape.
+
+(* ------------------------------------------------------------------------------------------------
+   THE TRIAL VECTOR OF ONE INDIVIDUAL, as the optimizers' own methods compose it.  SHADE._get_new_individ_g and
+   DifferentialEvolution._get_new_individ_g (inherited by jDE) are translated on every run (methods: reads of self become
+   parameters; the strategy function looked up in the pool becomes a function parameter) and proved to be: strategy, then
+   binomial crossover with the parent, then the repair — with exactly these arguments. *)
+From TF Require Import CodeEqNewIndivid.
+
+Theorem C07_code_SHADE_get_new_individ_g : forall pop pbest archive l r cur F CR ds,
+  valid_draws ds -> (0 < length pop)%nat ->
+  uniform_rows (length cur) pop -> uniform_rows (length cur) archive ->
+  Forall (fun v => (0 <= v < Z.of_nat (length pop))%Z) pbest ->
+  py_SHADE_get_new_individ_g pop pbest archive l r cur F CR ds = shade_new_individ cur pop pbest F CR archive l r ds.
+Proof. exact code_SHADE_get_new_individ_g. Qed.
+Print Assumptions C07_code_SHADE_get_new_individ_g.
+
+Theorem C07_code_DE_get_new_individ_g : forall (mf : list Q -> list Q -> list (list Q) -> Q -> M (list Q)) (code : nat) best pop l r cur F CR ds,
+  mf cur best pop F ds = de_mutation code cur best pop F ds ->
+  py_DE_get_new_individ_g mf best pop l r cur F CR ds = de_new_individ code cur best pop F CR l r ds.
+Proof. exact code_DE_get_new_individ_g_strategy. Qed.
+Print Assumptions C07_code_DE_get_new_individ_g.
+
+Theorem C07_code_DE_new_individ_best_1 : forall best pop l r cur F CR ds,
+  valid_draws ds -> (2 <= length pop)%nat -> uniform_rows (length best) pop -> length cur = length best ->
+  py_DE_get_new_individ_g py_best_1 best pop l r cur F CR ds = de_new_individ 0 cur best pop F CR l r ds.
+Proof. exact code_DE_new_individ_best_1. Qed.
+Print Assumptions C07_code_DE_new_individ_best_1.
